@@ -862,6 +862,16 @@ def _(c):
     c.ensures("a fresh node with the source's data object and data_id at the documented position of the target; everything else (incl. the source) unchanged", post)
 
 
+def below_only(x, h_from, h_to, s):
+    """deep=True: list items differ between the two heaps only in the child list of s and in child lists of nodes that
+    lie deeper than s (rank = ghost depth; every node of the branch below s does).  Together with the unchanged parent
+    links, list objects and lengths (not in the modifies clause) and wf afterwards, every such child list is a
+    permutation of its former content."""
+    l, i, q = L.fresh("l", L.LRef), L.fresh("i", L.I), L.fresh("q", L.Ref)
+    return ForAll([l, i], Or(h_to.litem(l, i) == h_from.litem(l, i),
+                             Exists([q], And(h_from.inP(x.T, q), h_from._children(q) == l, l != LNONE, Or(q == s, h_from.rank(q) > h_from.rank(s))))), patterns=[h_to.litem(l, i)])
+
+
 @contract(NQ + "sort_children", props=("C01", "C04", "C13"))
 def _(c):
     """sort_children(key, reverse, deep=False): the child list of self -- the same list object -- holds a permutation of its
@@ -875,15 +885,6 @@ def _(c):
     c.modifies("litem", "pos")
     c.requires("wf", lambda x: And(wf0(x), self_in_P(x)))
     deep = lambda x: z3.is_true(x.a.deep)  # noqa: E731
-
-    def below_only(x, h_from, h_to, s):
-        """deep=True: list items differ between the two heaps only in the child list of s and in child lists of nodes that
-        lie deeper than s (rank = ghost depth; every node of the branch below s does).  Together with the unchanged parent
-        links, list objects and lengths (not in the modifies clause) and wf afterwards, every such child list is a
-        permutation of its former content."""
-        l, i, q = L.fresh("l", L.LRef), L.fresh("i", L.I), L.fresh("q", L.Ref)
-        return ForAll([l, i], Or(h_to.litem(l, i) == h_from.litem(l, i),
-                                 Exists([q], And(h_from.inP(x.T, q), h_from._children(q) == l, l != LNONE, Or(q == s, h_from.rank(q) > h_from.rank(s))))), patterns=[h_to.litem(l, i)])
 
     def deep_post(x):
         return And(below_only(x, x.h0, x.h, x.a.self), wf1(x))
@@ -939,3 +940,25 @@ def _(c):
 
     c.ghost_exit["pos"] = pos_exit
     c.ghost_exit_exc["pos"] = pos_exit
+
+
+@contract("nutree.tree.Tree.sort", props=("C01", "C04", "C13"))
+def _(c):
+    """Tree.sort(key, reverse, deep=True): delegates to the system root's sort_children -- the tree stays well-formed; with
+    deep=False only the top-level list is re-ordered, with deep=True only child lists (of the root or deeper) are."""
+    c.param("self", "tree").param("key", "none", "cb").param("reverse", "false", "true").param("deep", "false", "true")
+    c.families = ("plain", "typed")
+    c.result_tag = "none"
+    c.modifies("litem", "pos")
+    c.requires("wf", lambda x: wf0(x))
+
+    def frame(x):
+        root = x.h0._root(x.a.self)
+        if z3.is_true(x.a.deep):
+            return below_only(x, x.h0, x.h, root)
+        l, i = L.fresh("l", L.LRef), L.fresh("i", L.I)
+        return ForAll([l, i], Implies(l != x.h0._children(root), x.h.litem(l, i) == x.h0.litem(l, i)), patterns=[x.h.litem(l, i)])
+
+    c.ensures("deep=False: only the top-level list is re-ordered -- deep=True: only child lists change", frame)
+    c.ensures("the tree stays well-formed", lambda x: wf1(x))
+    c.may_raise("Callback", ensures=lambda x: And(frame(x), wf1(x)), name="the key callback raises: still well-formed, same frame")
